@@ -506,6 +506,34 @@ pub fn run_shard(ctx: &mut Ctx) {
             Err(e) => ctx.out.inconclusive.push(format!("process round: {}", e)),
         }
         ctx.out.count("process_rounds", 1);
+        // (c) the owner is another process: refused here, owner exits, open here must succeed
+        match crate::props::c13x::other_process_round(&ci, 1 + (k % 3) as u32) {
+            Ok(Some(vi)) => ctx.out.viol(vi),
+            Ok(None) => ctx.out.count("other_process_rounds(refused_here_then_owner_process_exits)", 1),
+            Err(e) => ctx.out.inconclusive.push(format!("other-process round: {}", e)),
+        }
+        // (d) the same directory under other spellings of its path
+        match crate::props::c13x::alias_round(&ci) {
+            Ok((vi, n)) => {
+                ctx.out.count("attempts_through_another_path_spelling(symlink,dot,double_slash)", n);
+                if let Some(vi) = vi {
+                    ctx.out.viol(vi);
+                }
+            }
+            Err(e) => ctx.out.inconclusive.push(format!("alias round: {}", e)),
+        }
+        // (e) the owner's worker ends on an I/O error, the owner lives on
+        for _ in 0..2 {
+            match crate::props::c13x::dead_worker_round(r.next()) {
+                Ok((vi, n)) => {
+                    ctx.out.count("attempts_against_an_owner_whose_worker_had_ended", n);
+                    if let Some(vi) = vi {
+                        ctx.out.viol(vi);
+                    }
+                }
+                Err(e) => ctx.out.inconclusive.push(format!("dead-worker round: {}", e)),
+            }
+        }
         match fork_round(&ci) {
             Ok(Some(vi)) => ctx.out.viol(vi),
             Ok(None) => ctx.out.count("fork_rounds(owner_dropped_while_a_forked_child_holds_its_descriptors)", 1),
